@@ -45,13 +45,14 @@ type Program struct {
 	allGEDefs     []*allGEDef
 	coinsPredDefs []*coinsPredDef
 	explicitCoins map[*Term][]coinEntry
+	prefixGlobals map[string]*Family
 }
 
 func LoadProgram(repo, moduleDir string, patterns []string, extraSpecs []string) (*Program, error) {
 	p := &Program{repo: repo, moduleDir: moduleDir, contracts: map[string]*Contract{}, defines: map[string]*Define{},
 		families: map[string]*Family{}, famByName: map[string]*Family{}, prefixFns: map[string]*Family{}, lemmas: map[string]*LemmaDecl{},
 		globalObjs: map[*Obj]*ssa.Global{}, globals: map[*ssa.Global]*Obj{}, gconsts: map[*ssa.Global]*Term{}, sliceCells: map[*Obj]bool{},
-		repoPkgs: map[*ssa.Package]bool{}, funcsByKey: map[string]*ssa.Function{}, explicitCoins: map[*Term][]coinEntry{}}
+		repoPkgs: map[*ssa.Package]bool{}, funcsByKey: map[string]*ssa.Function{}, explicitCoins: map[*Term][]coinEntry{}, prefixGlobals: map[string]*Family{}}
 	p.fset = token.NewFileSet()
 	cfg := &packages.Config{
 		Mode: packages.NeedName | packages.NeedFiles | packages.NeedCompiledGoFiles | packages.NeedImports | packages.NeedTypes |
@@ -372,6 +373,10 @@ func (p *Program) declareFamily(fd *FamilyDecl, pkgName string) error {
 	p.families[fam.KeyFunc] = fam
 	p.famByName[fam.Name] = fam
 	for _, pf := range fd.Prefix {
+		if strings.HasPrefix(pf, "global:") || strings.HasPrefix(pf, "const:") {
+			p.prefixGlobals[pf] = fam
+			continue
+		}
 		fn := p.findFunc(pf)
 		if fn == nil {
 			return fmt.Errorf("family %s: prefix function %s not found", fd.Name, pf)
